@@ -25,7 +25,7 @@ Mk(b, incl, kinds, subs, cstr, comp) ==
      subvals |-> SubV, aval |-> AV, tval |-> TV,
      gsub |-> "none", fsub |-> "none", consts |-> <<>>, symorder |-> <<>>,
      gval |-> Q(61), gsubval |-> Q(67), gconst |-> Q(71), fsubval |-> Q(73), fconst |-> Q(79),
-     qval |-> Q(83)]
+     qval |-> Q(83), psym |-> "none", symodict |-> FALSE, rebuild |-> FALSE, implicit |-> FALSE]
 
 \* rate constants with two unique keys and explicit defaults; substitution of the first / second key
 CfgUk2(n) == { Mk(b, incl, kinds, subs, FALSE, FALSE) :
@@ -89,8 +89,19 @@ CompDef == [s \in AllSpecies |->
                 [] s = "D" -> (0 :> 1 @@ 3 :> 1)]
 Cat4 == { Inst(Shapes[i], 0) : i \in {3, 8, 11, 15} }
 Cat3 == { Inst(Shapes[i], 0) : i \in {3, 8, 15} }
+\* argument forms and histories of the builders themselves
+CfgForms(n) == { [cf EXCEPT !.rebuild = rb, !.implicit = im] : cf \in CfgFewBoth(n), rb \in BOOLEAN, im \in BOOLEAN }
+                \cup { [Mk("create_odesys", FALSE, kinds, Uniform(n, "none"), cstr, FALSE)
+                          EXCEPT !.psym = ps, !.symorder = so, !.symodict = od] :
+                         kinds \in { Uniform(n, "str"), Alternate(n, "ma_fk", "ma_pk"), Uniform(n, "ma_uk2") },
+                         cstr \in BOOLEAN, ps \in {"order", "rev"}, so \in {<<>>, subst, Rev(subst)}, od \in BOOLEAN }
+CfgFormsQ(n) == { cf \in CfgForms(n) : (cf.rebuild \/ cf.implicit \/ cf.psym # "none")
+                                        /\ (cf.psym = "none" \/ cf.symorder # subst \/ cf.symodict) }
 CfgAllUk2(n) == CfgAll(n) \cup CfgUk2(n)
 CfgMix(n) == CfgSym(n) \cup CfgFewBoth(n)
 CfgMixQ(n) == { cf \in CfgSym(n) : cf.subs = Uniform(n, "none") /\ cf.kinds # Uniform(n, "ma_num")
                                       /\ cf.symorder \in {subst, Rev(subst)} } \cup CfgFewCstr(n)
+\* quick tier: several families in one run (fewer TLC launches); which family applies depends on the state
+CfgMainQ(n) == IF hist = <<>> THEN CfgAll(n) \cup CfgUk2(n) \cup CfgFormsQ(n) ELSE CfgThree(n)
+CfgFeedsQ(n) == CfgMixQ(n) \cup (IF feed.usermap THEN {} ELSE CfgConstQ(n))
 =============================================================================
